@@ -76,7 +76,7 @@ type reasmShape struct {
 func analyseReasm(fn *ssa.Function) *reasmShape {
 	s := &reasmShape{fn: fn}
 	allInstrs(fn, func(in ssa.Instruction) {
-		if call, ok := in.(*ssa.Call); ok && call.Call.IsInvoke() && call.Call.Method.Name() == "dequeue" {
+		if call, ok := in.(*ssa.Call); ok && call.Call.IsInvoke() && ifaceMethodRole(call.Call.Method) == "dequeue" {
 			s.deq = call
 		}
 	})
@@ -383,11 +383,9 @@ func (c *Ctx) markerStoresNonNil(marker FieldRef) (bool, string) {
 				return
 			}
 			st := storesInto(al)
-			ev, ok := st["error"]
-			if !ok {
-				for _, v := range st {
-					ev = v
-				}
+			var ev ssa.Value
+			for _, v := range st {
+				ev = v
 			}
 			if ev == nil {
 				okAll, why = false, "marker holder built without an error at "+w.At(call)
@@ -517,7 +515,7 @@ func (c *Ctx) unguardedReceiverCancel(marker FieldRef, streamType string) string
 		}
 		allInstrs(fn, func(in ssa.Instruction) {
 			call, ok := in.(ssa.CallInstruction)
-			if !ok || !call.Common().IsInvoke() || call.Common().Method.Name() != "cancel" {
+			if !ok || !call.Common().IsInvoke() || call.Common().Method.Name() != w.mName("cancel") {
 				return
 			}
 			if fr, _, ok := loadedField(call.Common().Value); !ok || fr.Type != streamType {
@@ -626,7 +624,7 @@ func (c *Ctx) wakeBeforeMarker(marker FieldRef, streamType string) string {
 				return
 			}
 			m := call.Common().Method.Name()
-			if m != "close" && m != "cancel" {
+			if m != w.mName("close") && m != w.mName("cancel") {
 				return
 			}
 			if fr, _, ok := loadedField(call.Common().Value); !ok || fr.Type != streamType {
